@@ -147,16 +147,36 @@ pub fn predict_args(case: &PredictCase, model: &str) -> Vec<String> {
     a
 }
 
+/// Input stream for the tools. "The input line" is what `BufRead::lines` yields (it strips one
+/// "\n" or "\r\n"): a line whose text ends in CR is therefore always terminated with "\r\n" (so
+/// that CR stays text, e.g. "abc\r\r\n"), other lines alternate between "\n" and "\r\n", and the
+/// last line is sometimes left unterminated.
+pub fn build_stream(lines: &[String]) -> Vec<u8> {
+    let mut out = vec![];
+    for (i, l) in lines.iter().enumerate() {
+        out.extend_from_slice(l.as_bytes());
+        let last = i + 1 == lines.len();
+        if l.ends_with('\r') {
+            if !(last && l.len() % 2 == 0) {
+                out.extend_from_slice(b"\r\n");
+            }
+        } else if last && !l.is_empty() && l.len() % 3 == 0 {
+            // unterminated last line
+        } else if (i + l.len()) % 3 == 1 {
+            out.extend_from_slice(b"\r\n");
+        } else {
+            out.push(b'\n');
+        }
+    }
+    out
+}
+
 pub fn test_predict(case: &PredictCase) -> TestResult {
     let dir = util::Scratch::new("c20");
     let mpath = dir.path("model.zst");
     std::fs::write(&mpath, util::zstd_encode(&case.spec.to_bytes())).map_err(|e| e.to_string())?;
-    let mut stdin = String::new();
-    for l in &case.lines {
-        stdin.push_str(l);
-        stdin.push('\n');
-    }
-    let r = util::run_tool("predict", &predict_args(case, &mpath.to_string_lossy()), stdin.as_bytes())?;
+    let stdin = build_stream(&case.lines);
+    let r = util::run_tool("predict", &predict_args(case, &mpath.to_string_lossy()), &stdin)?;
     let out = String::from_utf8(r.stdout.clone()).map_err(|_| "predict wrote invalid UTF-8".to_string())?;
     ensure!(!r.stderr.contains("panicked"), "predict crashed: {}", r.stderr.lines().filter(|l| l.contains("panicked") || l.contains("must be")).collect::<Vec<_>>().join(" / "));
     let rejected = case.lines.iter().filter(|l| l.is_empty() || l.contains('\0')).count();
@@ -202,7 +222,7 @@ pub fn test_predict(case: &PredictCase) -> TestResult {
     if !norm_changes {
         let mut other = case.clone();
         other.no_norm = !case.no_norm;
-        let r2 = util::run_tool("predict", &predict_args(&other, &mpath.to_string_lossy()), stdin.as_bytes())?;
+        let r2 = util::run_tool("predict", &predict_args(&other, &mpath.to_string_lossy()), &stdin)?;
         ensure!(
             r2.stdout == r.stdout,
             "normalisation-invariant input gives different output with and without --no-norm (args {:?})",
@@ -235,10 +255,6 @@ fn resolve_line(raw: &[u16], palette: &[char]) -> String {
             }
         })
         .collect();
-    // BufRead::lines strips a trailing CR, so "the original line" would be ambiguous: excluded
-    while s.ends_with('\r') {
-        s.pop();
-    }
     s
 }
 
@@ -266,7 +282,6 @@ fn predict_case_strategy() -> impl Strategy<Value = PredictCase> {
             // texts of the model are good input lines too
             for t in mc.texts.iter().take(1) {
                 let t: String = t.chars().filter(|&c| c != '\n').collect();
-                let t = t.trim_end_matches('\r').to_string();
                 if !t.is_empty() {
                     ls.push(t);
                 }
@@ -341,11 +356,7 @@ pub fn test_evaluate(case: &EvalCase) -> TestResult {
     let dir = util::Scratch::new("c20e");
     let mpath = dir.path("model.zst");
     std::fs::write(&mpath, util::zstd_encode(&case.spec.to_bytes())).map_err(|e| e.to_string())?;
-    let mut stdin = String::new();
-    for l in &case.lines {
-        stdin.push_str(l);
-        stdin.push('\n');
-    }
+    let stdin = build_stream(&case.lines);
     let mut args = vec!["--model".to_string(), mpath.to_string_lossy().to_string()];
     if case.no_norm {
         args.push("--no-norm".into());
@@ -359,7 +370,7 @@ pub fn test_evaluate(case: &EvalCase) -> TestResult {
         args.push("--wsconst".into());
         args.push(c.to_string());
     }
-    let r = util::run_tool("evaluate", &args, stdin.as_bytes())?;
+    let r = util::run_tool("evaluate", &args, &stdin)?;
     ensure!(!r.stderr.contains("panicked"), "evaluate crashed: {}", r.stderr);
     ensure!(r.code == Some(0), "evaluate exits with {:?}: {}", r.code, r.stderr.lines().last().unwrap_or(""));
     let out = String::from_utf8_lossy(&r.stdout).to_string();
@@ -451,7 +462,10 @@ fn eval_case_strategy() -> impl Strategy<Value = EvalCase> {
                     lines.push(String::new());
                     continue;
                 }
-                let t: String = mc.texts[pick(ti, mc.texts.len())].chars().filter(|c| !matches!(c, '\n' | '\r')).collect();
+                let mut t: String = mc.texts[pick(ti, mc.texts.len())].chars().filter(|c| *c != '\n').collect();
+                if k % 5 == 1 {
+                    t.push('\r'); // a reference whose text ends in CR
+                }
                 let chars: Vec<char> = t.chars().collect();
                 if chars.is_empty() {
                     continue;
@@ -554,7 +568,7 @@ and at least one error.",
         eval_case_strategy,
         test_evaluate,
     );
-    rep.assume("lines ending in CR are excluded by construction (BufRead::lines strips the CR, so the original line would be ambiguous)");
+    rep.assume("the input line is what BufRead::lines yields; a line whose text ends in CR is written with a CRLF terminator so that the CR stays text");
     rep.assume("what follows a rejected line under --tag-scores is not specified: nothing or an empty block are accepted");
     rep.assume("--tag-scores without --predict-tags is under-specified: a clean usage error, plain output, or empty blocks are accepted; a crash is not");
 }
